@@ -27,6 +27,34 @@ class UnitError(Exception):
     that no longer applies, malformed unit file."""
 
 
+def lower_ref_mut(text):
+    """R21: `ref mut` bindings -> default binding mode on a `&mut` scrutinee (Verus has no ref patterns):
+         if let P(ref mut x) = PLACE {      ->  if let P(x) = &mut PLACE {
+         match PLACE { P(ref mut x) => …    ->  match &mut PLACE { P(x) => …
+    Same bindings (x: &mut T), same arm order.  Returns (text, number of rewrites)."""
+    n = 0
+    while True:
+        m = re.search(r'\bif let ([^\n=]*\bref mut [^\n=]*) = ([A-Za-z_][A-Za-z0-9_\.]*) \{', text)
+        if not m:
+            break
+        text = text[:m.start()] + 'if let ' + m.group(1).replace('ref mut ', '') + ' = &mut ' + m.group(2) + ' {' + text[m.end():]
+        n += 1
+    pos = 0
+    while True:
+        msk = rustscan.mask(text)
+        m = re.compile(r'\bmatch ([A-Za-z_][A-Za-z0-9_\.]*) \{').search(msk, pos)
+        if not m:
+            break
+        bo = m.end() - 1
+        bc = rustscan.match_close(msk, bo)
+        block = text[bo:bc]
+        if 'ref mut ' in block:
+            text = text[:m.start()] + 'match &mut ' + text[m.start(1):m.end(1)] + ' ' + block.replace('ref mut ', '') + text[bc:]
+            n += 1
+        pos = m.end()
+    return text, n
+
+
 def split_or_arms(text):
     """R15: a match arm `P1 | P2 | … => { body }` whose pattern binds by `ref mut` becomes one arm per
     alternative, each with the same body.  Returns (new_text, number_of_arms_split)."""
@@ -323,6 +351,9 @@ class Unit:
             if body_open is not None:
                 body_open = body_open   # the fn signature precedes every match arm: offset unchanged
             text = text2
+        if 'R21' in it.named_rules:
+            text, n21 = lower_ref_mut(text)
+            rules.append('R21x%d' % n21)      # nothing to rewrite is logged, not an error
         if 'R19' in it.named_rules:
             # `mut self` receiver: fn f(mut self, …) { … self … }  ->  fn f(self, …) { let mut this = self; … this … }
             m0 = rustscan.mask(text)
@@ -556,7 +587,16 @@ class Unit:
                         res.append(l)
                 woven = res
             out.extend(woven)
-        return out
+        # several imports may each declare the platform word size: keep the first declaration
+        seen = False
+        res = []
+        for l in out:
+            if l.text.strip().startswith('global size_of usize'):
+                if seen:
+                    continue
+                seen = True
+            res.append(l)
+        return res
 
     def _import(self, name, kf_on):
         """Lines of another unit's exported region with every verified fn body made external_body:
